@@ -88,7 +88,11 @@ def make_program(rng, tweak=None, family=None):
 
 def generate(tier, seed, shard, nshards):
     rng = random.Random(f'C13/{seed}/{shard}')
-    for _ in range(N_PROG[tier] // nshards):
+    for k in range(N_PROG[tier] // nshards):
+        if k % 6 == 5:
+            prog, family, w = D.chain_program(rng)
+            yield {'program': prog, 'family': family, 'w': w, 'tseed': rng.getrandbits(32), 'stratum': 'chain'}
+            continue
         prog, family, w = make_program(rng)
         yield {'program': prog, 'family': family, 'w': w, 'tseed': rng.getrandbits(32)}
 
@@ -283,6 +287,19 @@ def judge_one(ctx, prefix, prog, family, w, tname, base_canon=None):
     if not D.geometry_ok(prog, d):
         ctx.count('set_aside_schemdraw_did_not_honour_endpoints')
         return net
+    if (len(prog['symbols']) + len(tname)) % 2 == 0:
+        # a drawing is normally rendered before it is analysed (leaving a `with Schematic()` block draws it): rendering must not
+        # change what it depicts
+        r = call(d.draw, show=False)
+        ctx.count('drawings_rendered_before_translation')
+        try:
+            import matplotlib.pyplot as plt
+            plt.close('all')
+        except Exception:
+            pass
+        if raised(r):
+            ctx.violation(f'{prefix}/rendering-raised/{r.key}', f'drawing the schematic raised {r.text}', {})
+            return net
     circ = call(circuit_translator, d)
     ctx.count('drawings_translated'); ctx.count(f'transform_{tname}')
     if raised(circ):
@@ -407,6 +424,8 @@ def judge(case, ctx, prefix='C13'):
     ctx.sample(case)
     if any(c['nodes'][0] == c['nodes'][1] for c in net['components']):
         ctx.count('drawings_with_bridged_component')
+    if prog.get('chain'):
+        ctx.count('drawings_with_chained_placement')
     judge_one(ctx, prefix, prog, family, w, 'base')
     ctx.evaluated(repr((syms, min(nwires, 6), 'base')), nt)
     transforms = [
